@@ -165,7 +165,7 @@ def instr_src(ts, ins, vt):
     return f'DUP; PUSH {ts} {k}; MEM; IF {{ {vt.push_opt(1)} }} {{ {vt.push_opt(0)} }}; {RECORD}'
 
 
-def contract_src(t, script, vt=V.VT_INT):
+def contract_src(t, script, vt=V.VT_INT, via_param=False):
     ts = V.type_src(t)
     if vt.ticket:
         # non-duplicable values: updates only, then ONE consuming MEM whose answer is the only observation;
@@ -175,11 +175,16 @@ def contract_src(t, script, vt=V.VT_INT):
         return (f'parameter unit; storage (pair (big_map {ts} {vt.src}) (list bool)); '
                 f'code {{ CDR; UNPAIR; {body + "; " if body else ""}PUSH {ts} {k}; MEM; CONS; EMPTY_BIG_MAP {ts} {vt.src}; PAIR; NIL operation; PAIR }}')
     body = '; '.join(instr_src(ts, i, vt) for i in script)
+    if via_param:
+        # the on-chain big_map arrives by id in the PARAMETER (a big_map copy: temporary id aliasing the source);
+        # the storage's own (empty) big_map is dropped and the copy is stored
+        return (f'parameter (big_map {ts} {vt.src}); storage (pair (big_map {ts} {vt.src}) (list (option {vt.src}))); '
+                f'code {{ UNPAIR; SWAP; CDR; SWAP; {body + "; " if body else ""}PAIR; NIL operation; PAIR }}')
     return (f'parameter unit; storage (pair (big_map {ts} {vt.src}) (list (option {vt.src}))); '
             f'code {{ CDR; UNPAIR; {body + "; " if body else ""}PAIR; NIL operation; PAIR }}')
 
 
-def run_impl(t, universe, ptr, chain, lit, script, vt=V.VT_INT):
+def run_impl(t, universe, ptr, chain, lit, script, vt=V.VT_INT, via_param=False):
     """-> (observations, diff dict, storage) or a failure string. chain: {canon key: (key, value code)}."""
     from pytezos.michelson.parse import michelson_to_micheline
     from pytezos.michelson.repl import Interpreter
@@ -189,9 +194,9 @@ def run_impl(t, universe, ptr, chain, lit, script, vt=V.VT_INT):
         bm = {'int': str(ptr)}
     else:
         bm = [{'prim': 'Elt', 'args': [m, vt.micheline(z)]} for m, (k, z) in zip(V.literal_michelines(t, [k for k, _ in lit]), lit)]
-    storage = {'prim': 'Pair', 'args': [bm, []]}
-    src = contract_src(t, script, vt)
-    ok, res = lib.call(Interpreter.run_code, {'prim': 'Unit'}, storage, michelson_to_micheline(src), shell=shell, block_id='head')
+    storage = {'prim': 'Pair', 'args': [[] if via_param else bm, []]}
+    src = contract_src(t, script, vt, via_param)
+    ok, res = lib.call(Interpreter.run_code, bm if via_param else {'prim': 'Unit'}, storage, michelson_to_micheline(src), shell=shell, block_id='head')
     if not ok:
         return f'run_code raised {type(res).__name__}: {res}'[:300], src
     operations, new_storage, lazy_diff, stdout, error = res
@@ -285,7 +290,7 @@ def reference(t, ptr, chain, lit, script):
     return obs, cur
 
 
-def oracle(t, universe, ptr, chain, lit, script, out, vt=V.VT_INT):
+def oracle(t, universe, ptr, chain, lit, script, out, vt=V.VT_INT, via_param=False):
     """The property on the implementation's output. Returns a reason or None."""
     want_obs, final = reference(t, ptr, chain, lit, script)
     if out.get('ticket'):
@@ -311,6 +316,11 @@ def oracle(t, universe, ptr, chain, lit, script, out, vt=V.VT_INT):
     want_view = {V.value_src(k): (final[V.canon(k)][1] if V.canon(k) in final else None) for k in universe}
     if out['merged'] != want_view:
         return f'merge_lazy_diff of the emitted diff over the on-chain big_map answers GET with {out["merged"]}, the final dictionary is {want_view}'
+    if via_param:
+        # (the new id comes from the context's allocation counter, which starts at 0 offline: it may equal the source id)
+        if out['action'] != 'copy':
+            return f'diff of an on-chain big_map passed in the parameter has action {out["action"]} (source {ptr})'
+        return None
     if ptr is not None and (out['action'] != 'update' or out['id'] != ptr):
         return f'diff of an existing big_map has action {out["action"]} / id {out["id"]}'
     if ptr is None and (out['action'] != 'alloc' or not out['has_types']):
@@ -649,7 +659,7 @@ def run(ctx: lib.Ctx) -> None:
     ctx.rule = ('one run_code call per case: key type among string/int/nat/bytes/pair/or/option/address/key_hash (nested), a universe of '
                 '3-5 keys differing in one leaf; the big_map is an id whose on-chain content is a random subset of the universe (60 %), '
                 'a sorted literal (25 %) or empty; history of up to 30 (quick) / 300 (thorough) UPDATE (set/remove), GET_AND_UPDATE, GET, MEM '
-                'over the universe; value types int, bool, string, bytes, list/set/map, option, pair (the pytezos-falsy literal False/""/0x/{} drawn 45 % of the time, '
+                'over the universe, every on-chain case also re-run with the big_map passed by id in the parameter (big_map copy; oracle only); value types int, bool, string, bytes, list/set/map, option, pair (the pytezos-falsy literal False/""/0x/{} drawn 45 % of the time, '
                 'also as ON-CHAIN value) and non-duplicable option (ticket string) (updates then one consuming MEM). non-trivial = some key is updated at least twice, or a key that exists only on chain is updated/removed.')
     n_cases = ctx.n(220, 2500)
     max_len = ctx.n(30, 300)
@@ -703,6 +713,17 @@ def run(ctx: lib.Ctx) -> None:
             coq_bad_marker = False
             coq_out = ('(' + clist(coq_obs(o) for o in out['obs']) + ', '
                        + clist([xs_slot(ptr if ptr is not None else -1, out['items'], out['removed'])]) + ')')
+        if ptr is not None and not vt.ticket and not isinstance(out, str):
+            # oracle-only stream: the same on-chain big_map and history, the big_map handed over by id in the parameter
+            pres, psrc = run_impl(t, pool, ptr, chain, lit, full_script, vt, via_param=True)
+            pout = decode_impl(t, pool, script, pres, vt) if not isinstance(pres, str) else pres
+            pwhy = pout if isinstance(pout, str) else oracle(t, pool, ptr, chain, lit, script, pout, vt, via_param=True)
+            ctx.dist['on-chain big_map passed by id in the parameter (copy)'] += 1
+            if pwhy and reported < 3:
+                reported += 1
+                ctx.violation('big_map passed by id in the parameter: ' + pwhy,
+                              {**describe(t, ptr, chain, lit, full_script, vt), 'observed': pout, 'contract': psrc,
+                               'repro': 'harness/c15.py run_impl(..., via_param=True): Interpreter.run_code(<id>, Pair {} {}, contract, shell=StubShell(on-chain table), block_id="head")'})
         if why and reported < 3:
             reported += 1
             ctx.violation('big_map: ' + why,
